@@ -549,9 +549,78 @@ func (p *Prog) PathCond(fn *ssa.Function, from *ssa.BasicBlock, site ssa.Instruc
 	}
 	var out DNF
 	onPath := map[*ssa.BasicBlock]bool{}
-	var walk func(b *ssa.BasicBlock, c Conj)
+	var walkB func(b *ssa.BasicBlock, c Conj)
 	count := 0
-	walk = func(b *ssa.BasicBlock, c Conj) {
+	// phiVal: for the boolean phis of the blocks on the current path, the operand contributed by the edge taken
+	// (short-circuit || and && join in a phi)
+	phiVal := map[*ssa.Phi]ssa.Value{}
+	var cur *ssa.BasicBlock
+	walk := func(s *ssa.BasicBlock, c Conj) {
+		from := cur
+		var set []*ssa.Phi
+		saved := map[*ssa.Phi]ssa.Value{}
+		for _, in := range s.Instrs {
+			ph, isPh := in.(*ssa.Phi)
+			if !isPh {
+				break
+			}
+			if !isBool(ph.Type()) {
+				continue
+			}
+			for k, pb := range s.Preds {
+				if pb == from {
+					if old, had := phiVal[ph]; had {
+						saved[ph] = old
+					}
+					phiVal[ph] = ph.Edges[k]
+					set = append(set, ph)
+					break
+				}
+			}
+		}
+		walkB(s, c)
+		for _, ph := range set {
+			if old, had := saved[ph]; had {
+				phiVal[ph] = old
+			} else {
+				delete(phiVal, ph)
+			}
+		}
+		cur = from
+	}
+	resolve := func(cond ssa.Value) ssa.Value {
+		for i := 0; i < 8; i++ {
+			neg := false
+			v := cond
+			for {
+				if u, ok := v.(*ssa.UnOp); ok && u.Op == token.NOT {
+					v = u.X
+					neg = !neg
+					continue
+				}
+				break
+			}
+			ph, ok := v.(*ssa.Phi)
+			if !ok {
+				return cond
+			}
+			e, ok := phiVal[ph]
+			if !ok {
+				return cond
+			}
+			if neg {
+				if cb, isC := e.(*ssa.Const); isC && cb.Value != nil && cb.Value.Kind() == constant.Bool {
+					e = ssa.NewConst(constant.MakeBool(!constant.BoolVal(cb.Value)), cb.Type())
+				} else {
+					e = &negated{Value: e}
+				}
+			}
+			cond = e
+		}
+		return cond
+	}
+	walkB = func(b *ssa.BasicBlock, c Conj) {
+		cur = b
 		if count > 4096 {
 			return
 		}
@@ -577,7 +646,22 @@ func (p *Prog) PathCond(fn *ssa.Function, from *ssa.BasicBlock, site ssa.Instruc
 				}
 				// a branch on the boolean result of a helper that is analysed as part of this function: the disjunction,
 				// over the helper's returns, of (the way to that return) and (what it returns)
-				if hd, ok := p.helperBoolDNF(t.Cond, i == 0, keep, 0); ok {
+				cur = b
+				tc, want := resolve(t.Cond), i == 0
+				for {
+					if ng, isN := tc.(*negated); isN {
+						tc, want = ng.Value, !want
+						continue
+					}
+					break
+				}
+				if cb, isC := tc.(*ssa.Const); isC && cb.Value != nil && cb.Value.Kind() == constant.Bool {
+					if constant.BoolVal(cb.Value) == want {
+						walk(s, c)
+					}
+					continue
+				}
+				if hd, ok := p.helperBoolDNF(tc, want, keep, 0); ok {
 					for _, hc := range hd {
 						saved := Conj{}
 						for k, v := range c {
@@ -601,11 +685,7 @@ func (p *Prog) PathCond(fn *ssa.Function, from *ssa.BasicBlock, site ssa.Instruc
 					}
 					continue
 				}
-				lit := p.CondLit(t.Cond, i == 0)
-				// phi-joined short-circuit conditions are resolved on the fly
-				if ph, ok := stripNot(t.Cond).(*ssa.Phi); ok && isBool(ph.Type()) {
-					_ = ph
-				}
+				lit := p.CondLit(tc, want)
 				if keep != nil && !keep(lit.Form) {
 					walk(s, c)
 					continue
@@ -623,14 +703,18 @@ func (p *Prog) PathCond(fn *ssa.Function, from *ssa.BasicBlock, site ssa.Instruc
 		default:
 			for _, s := range b.Succs {
 				if !onPath[s] {
+					cur = b
 					walk(s, c)
 				}
 			}
 		}
 	}
-	walk(from, Conj{})
+	walkB(from, Conj{})
 	return out
 }
+
+// negated marks "not v" for a phi operand resolved under a negation (never part of the program).
+type negated struct{ ssa.Value }
 
 func stripNot(v ssa.Value) ssa.Value {
 	for {
